@@ -24,6 +24,7 @@ import (
 	"strings"
 	"sync"
 	"sync/atomic"
+	"syscall"
 	"testing"
 	"time"
 	"unsafe"
@@ -1470,6 +1471,7 @@ func isoWorkers() int {
 func isoStart() (*isoChild, error) {
 	cmd := exec.Command(os.Args[0], "-test.run", "^TestIsoChild$", "-test.timeout", "0")
 	cmd.Env = append(os.Environ(), isoEnv+"=1", "VERIF_REPLAY_CHILD=1")
+	cmd.SysProcAttr = &syscall.SysProcAttr{Pdeathsig: syscall.SIGKILL} // a child never outlives the run
 	in, err := cmd.StdinPipe()
 	if err != nil {
 		return nil, err
